@@ -159,13 +159,21 @@ def run_check(prop, tier, seed, replay=None):
         if replay:
             return mod.replay(ctx, replay)
         from . import decoy
-        for _ in range(3):      # other objects with other code tables / string indexes were at work before the check starts
+        decoy.burst(full=True)   # other objects with other code tables / string indexes were at work before the check starts
+        for _ in range(3):
             decoy.burst()
         mod.run(ctx)
         ctx.extra.update(decoy.stats())
         return ctx.finish()
     except Exception:
         traceback.print_exc()
+        if ctx.violations and not replay:
+            # the tree under test broke so much that the bookkeeping after the comparisons failed: what was already found counts
+            print('note: the check could not complete (exception above); reporting the violations found before it')
+            try:
+                return ctx.finish()
+            except Exception:
+                traceback.print_exc()
         shutil.rmtree(ctx.workdir, ignore_errors=True)
         print('MACHINERY-FAILURE property=%s (exit 2; not a verdict)' % prop)
         return 2
